@@ -122,7 +122,7 @@ func c17Exec(r *vf.Run, cfg c17Cfg, c *vf.Chooser) (keys, whats []string) {
 	var opErr error
 	var callStart time.Time
 	blocksBefore := 0
-	pan, pw := vf.Guard(func() {
+	pan, pw, hung := vf.GuardTimeout(vf.CallTimeout, func() {
 		switch cfg.Entry {
 		case 0:
 			callStart = time.Now()
@@ -150,6 +150,18 @@ func c17Exec(r *vf.Run, cfg c17Cfg, c *vf.Chooser) (keys, whats []string) {
 	})
 	if pan {
 		add("panic/"+vf.PanicSite(pw), pw)
+		return
+	}
+	if hung {
+		last := "connect"
+		if n := len(sess.Transcript); n > 0 {
+			last = sess.Transcript[n-1].Verb
+		}
+		if len(conn.Blocks) > 0 && conn.Blocks[len(conn.Blocks)-1].Op == "write" {
+			last = "DATA-content(write)"
+		}
+		add(fmt.Sprintf("call-never-returns/op=%s/after=%s", c17Entry[cfg.Entry], last),
+			fmt.Sprintf("%s did not return within %v although the fake server answers instantly and every block event was resolved at once: the call waits on something no connection deadline covers (tls=%s auth=%s)", c17Entry[cfg.Entry], vf.CallTimeout, c17TLS[cfg.TLS], c17Auth[cfg.Auth]))
 		return
 	}
 	protoStates(r, sess.Transcript)
